@@ -1522,8 +1522,11 @@ def mon_c12(w, F, vd):
                     nontriv = True
                     for ri in unfinished:
                         vd.label("c12:lost:%s" % _stage(ri, e.i))
+                made_before = set(ri.rid for ri in F.pubs() if ri.req.step < e.step or
+                                  next(y.i for y in w.log if y.k == "api" and y.d["rid"] == ri.rid) < e.i)
                 for x in evs:
-                    if x.k == "fire" and x.d["kind"] == "publish":
+                    # (a publish() called from a callback of the loss itself is refused: not a pending request)
+                    if x.k == "fire" and x.d["kind"] == "publish" and x.d["rid"] in made_before:
                         vd.bad("C12.failed_on_persistent_loss", "publish #%d fired %s(%s) when the persistent-session connection was lost" % (
                             x.d["rid"], x.d["out"], x.d["val"]))
             elif conn.clean is True:
